@@ -107,7 +107,7 @@ func (s Signature) WriteTo(w io.Writer) (n int64, err error) {
 }
 
 func (s *Signature) ReadFrom(r io.Reader) (n int64, err error) {
-	n2, err := r.Read(s[:])
+	n2, err := io.ReadFull(r, s[:])
 	return int64(n2), err
 }
 
@@ -138,7 +138,7 @@ func (p PackedSignature) ReadFrom(r io.Reader) (n int64, err error) {
 		if p.Signature == nil {
 			p.Signature = new(Signature)
 		}
-		n2, err := r.Read(p.Signature[:])
+		n2, err := io.ReadFull(r, p.Signature[:])
 		return n1 + int64(n2), err
 	} else {
 		p.Signature = nil
